@@ -86,5 +86,29 @@ __CPROVER_requires(NIX_SEL(DataView_dataExtent, DV_FRESH(self), DV_VALID(self)))
 __CPROVER_ensures(/*extent-is-window-size*/ RV.rank == self->count.rank && ND_FORALL(i18, RV.rank, RV.dims[i18] == self->count.dims[i18]))
 NIX_CANARY(DataView_dataExtent) __CPROVER_assigns()
 ;
+
+/* src/util/dataAccess.cpp: in-data tests.  positionInData: every index is inside the data;
+   positionAndExtentInData: the last element of the block (position + count - 1) is inside the data.
+   The arithmetic of the second is the code's 64-bit modular arithmetic: count 0 wraps to 'outside' (an empty block is
+   refused); a sum that wraps is NOT refused here - the DataView constructor, which every caller goes through next,
+   re-tests the window in the integers (contract DataView_ctor above). */
+bool positionInData(const DataArray *data, const NDSize *position)
+__CPROVER_requires(NIX_SEL(positionInData, __CPROVER_is_fresh(data, sizeof(DataArray)) && NDV_FRESH(data->extent) && ND_OK(position),
+                                         __CPROVER_r_ok(data, sizeof(DataArray)) && NDV_VALID(data->extent) && ND_VALID(position)))
+__CPROVER_requires(ND_CASE(position) && nix_exc == EXC_NONE)
+__CPROVER_ensures(/*inside-iff-every-index-inside*/ RV <==> (position->rank == data->extent.rank && ND_FORALL(i19, position->rank, position->dims[i19] < data->extent.dims[i19])))
+__CPROVER_ensures(/*no-exception*/ nix_exc == EXC_NONE)
+NIX_CANARY(positionInData) __CPROVER_assigns(nix_exc)
+;
+NIX_THROWS bool positionAndExtentInData(const DataArray *data, const NDSize *position, const NDSize *count)
+__CPROVER_requires(NIX_SEL(positionAndExtentInData, __CPROVER_is_fresh(data, sizeof(DataArray)) && NDV_FRESH(data->extent) && ND_OK(position) && ND_OK(count),
+                                         __CPROVER_r_ok(data, sizeof(DataArray)) && NDV_VALID(data->extent) && ND_VALID(position) && ND_VALID(count)))
+__CPROVER_requires(ND_CASE(position) && nix_exc == EXC_NONE)
+__CPROVER_ensures(/*rank-mismatch-throws*/ position->rank != count->rank <==> nix_exc == EXC_out_of_range)
+__CPROVER_ensures(/*no-other-exception*/ nix_exc == EXC_NONE || nix_exc == EXC_out_of_range)
+__CPROVER_ensures(/*inside-iff-last-element-inside*/ nix_exc == EXC_NONE ==> (RV <==> (position->rank == data->extent.rank &&
+                  ND_FORALL(i20, position->rank, position->dims[i20] + count->dims[i20] - 1 < data->extent.dims[i20]))))
+NIX_CANARY(positionAndExtentInData) __CPROVER_assigns(nix_exc)
+;
 #undef RV
 #endif
